@@ -51,19 +51,35 @@ def _collect_pow(expr: Pow) -> tuple[Expr, Dimension]:
     raise ValueError(f"Dimension of '{expr.exp}' is {exp_dim}, but it should be dimensionless")
 
 
-@_elementwise_wrapper
-def _collect_add(factor: Expr, dim: Dimension, arg: Expr) -> tuple[Expr, Dimension]:
-    arg_factor, arg_dim = collect_quantity_factor_and_dimension(arg)
+def _collect_common_dimension(
+    expr: Expr,
+    combine: Callable[[Expr, Expr], Expr],
+) -> tuple[Expr, Dimension]:
+    """
+    Combines the factors of the arguments of ``expr`` with ``combine`` and checks that all
+    arguments have the same dimension. An argument, which is `0`, `±Inf`, or `NaN`, can have any
+    dimension. Note that this is decided per argument, not by the value combined so far.
+    """
 
-    if is_any_dimension(factor):
-        dim = arg_dim
-    elif is_any_dimension(arg_factor):
-        arg_dim = dim
+    factor, dim = collect_quantity_factor_and_dimension(expr.args[0])
+    dim_is_any = is_any_dimension(factor)
 
-    if not dimsys_SI.equivalent_dims(dim, arg_dim):
-        raise ValueError(f"Dimension of '{arg}' is {arg_dim}, but it should be {dim}")
+    for arg in expr.args[1:]:
+        arg_factor, arg_dim = collect_quantity_factor_and_dimension(arg)
 
-    return (factor + arg_factor, dim)
+        if dim_is_any:
+            dim = arg_dim
+            dim_is_any = is_any_dimension(arg_factor)
+        elif not is_any_dimension(arg_factor) and not dimsys_SI.equivalent_dims(dim, arg_dim):
+            raise ValueError(f"Dimension of '{arg}' is {arg_dim}, but it should be {dim}")
+
+        factor = combine(factor, arg_factor)
+
+    return (factor, dim)
+
+
+def _collect_add(expr: Add) -> tuple[Expr, Dimension]:
+    return _collect_common_dimension(expr, lambda factor, arg_factor: factor + arg_factor)
 
 
 def _collect_abs(expr: Abs) -> tuple[Expr, Dimension]:
@@ -72,22 +88,7 @@ def _collect_abs(expr: Abs) -> tuple[Expr, Dimension]:
 
 
 def _collect_min_max(expr: MinMaxBase) -> tuple[Expr, Dimension]:
-    cls = type(expr)
-
-    def collect(factor: Expr, dim: Dimension, arg: Expr) -> tuple[Expr, Dimension]:
-        arg_factor, arg_dim = collect_quantity_factor_and_dimension(arg)
-
-        if is_any_dimension(factor):
-            dim = arg_dim
-        elif is_any_dimension(arg_factor):
-            arg_dim = dim
-
-        if not dimsys_SI.equivalent_dims(dim, arg_dim):
-            raise ValueError(f"Dimension of '{arg}' is {arg_dim}, but it should be {dim}")
-
-        return (cls(factor, arg_factor), dim)
-
-    return _elementwise_wrapper(collect)(expr)
+    return _collect_common_dimension(expr, type(expr))
 
 
 def _collect_function(expr: SymFunction) -> tuple[Expr, Dimension]:
